@@ -325,7 +325,7 @@ real wait_internal over many frames, (offset, frames, INT) compared after every 
 total = frames*L + offset, INT <=> offset < 32; system level: counting loop (16 T/iteration) run for 1..14 frames sliced \
 1/2/3/14 frames per emulate_frames call on both machines (executed T-states must equal frames*L+offset), IM 2 \
 interrupt counters under HALT and busy loops (exactly one interrupt per frame start), and the INT window swept with \
-an interrupt-enabled CPU at every frame offset 0..47. distinct/non-trivial = distinct (machine, offset near a frame \
+an interrupt-enabled CPU at every frame offset 0..47; interrupt-driven programs (EI;HALT under IM 2 with a handler that re-enables interrupts at once / after more than 32 T; a repeating LDIR with interrupts enabled at every phase relative to the frame start; code in uncontended and contended RAM) run across a frame start in lock-step with the Lean machine. distinct/non-trivial = distinct (machine, offset near a frame \
 edge, INT level) clock observations + distinct program/slicing/offset cases".into();
     let mut model = Model::spawn(&o.model, "C05");
     if let Some(text) = &o.replay {
@@ -342,6 +342,7 @@ edge, INT level) clock observations + distinct program/slicing/offset cases".int
             Some("conserve") => conservation(o, &mut rep, Some((m128, n(2), n(3)))),
             Some("ints") => interrupts(o, &mut rep, Some((m128, n(2) == 1, n(3)))),
             Some("window") => int_window(&mut rep, &mut model, Some((m128, n(2)))),
+            Some("sys") => crate::sys::replay(o, &mut rep, "C05", text),
             _ => {}
         }
         return rep;
@@ -350,5 +351,8 @@ edge, INT level) clock observations + distinct program/slicing/offset cases".int
     conservation(o, &mut rep, None);
     interrupts(o, &mut rep, None);
     int_window(&mut rep, &mut model, None);
+    // interrupt-driven programs across a frame start, in lock-step with the Lean machine
+    crate::sys::interrupt_programs(o, &mut rep, "C05");
+
     rep
 }
